@@ -25,11 +25,12 @@ Tolerances (DESIGN section 5), all computed from the reference, none tuned:
   * P where the command may differentiate numerically on the n-point grid: Taylor-remainder bound of the difference
     quotient from the reference's own F''' (h^2/6 sup|F'''| interior) and F'' (h/2 sup|F''| at the two end nodes);
     mode none: those node bounds propagated through the (linear) cubic-spline operator + the spline's own error
-  * pressure mode, V(P): first-order propagation of the node bounds through a 4-point Lagrange inverse interpolation
-    (sum |l_m| |P'(V)/P'(v_m)| bound_m), times (1 + 4 max bound / min bracket cell) as second-order guard, + twice the
+  * pressure mode, V(P): the larger of (a) the first-order propagation of the node bounds through a 4-point Lagrange
+    inverse interpolation (sum |l_m| |P'(V)/P'(v_m)| bound_m) and (b) the worst |P_fit(V') - P| over the 16 inverse
+    interpolations with each of the four node pressures at either end of [exact - bound, exact + bound]; + twice the
     reference's own inverse-interpolation residual on exact node pressures
   * pressure mode, F: |sum l_k F(v_k) - F(sum l_k v_k)| <= 1/2 sup|F''| sum |l_k| (v_k - V)^2 (Taylor, any weights of
-    sum one), with the same guard
+    sum one), with the largest sum over the same 16 + 1 weight sets
 """
 from __future__ import annotations
 
@@ -146,7 +147,7 @@ def table_of(data, ds):
 
 
 def write_inputs(d, case):
-    """writes input01 (and elast.dat); returns the command line"""
+    """writes input01 (and elast.dat); returns the file arguments of the command line"""
     system, sarg = TABLES[case["table"]]
     spec = dict(nv=case["nv"], nq=1, na=1, system=system or "orthorhombic", compset="minimal", static="generic")
     ds = synth.make(spec)
@@ -160,12 +161,19 @@ def write_inputs(d, case):
         with open(os.path.join(d, "elast.dat"), "w") as fp:
             fp.write(synth.static_file_text(reorder(dt, case.get("order02"))))
         args.append("elast.dat")
+    return args
+
+
+def option_args(case, model):
+    """the options of the command line; `model` (the reference on the written files) positions anchored pressure requests"""
+    system, sarg = TABLES[case["table"]]
+    args = []
     if case.get("mode") is not None:
         args += ["-I", case["mode"]]
     if case.get("n") is not None:
         args += ["-n", str(case["n"])]
     if case.get("mode") == "pressure":
-        pmin, dp = grid_of(case)
+        pmin, dp = grid_of(case, model)
         args += ["--p-min", repr(pmin), "--delta-p", repr(dp)]
         if case.get("sample"):
             args += ["--delta-p-sample", repr(case["sample"] * dp)]
@@ -178,9 +186,42 @@ def write_inputs(d, case):
     return args
 
 
-def grid_of(case):
+def dense_grid(case, vols):
+    n = case["n"] if case.get("n") is not None else 201
+    ratio = float(case["vratio"]) if case.get("vratio") is not None else V_RATIO
+    return numpy.linspace(vols.min() / ratio, vols.max() * ratio, n)
+
+
+def fitted_range(case, model):
+    """(bottom, top, bottom_safe, top_safe) in GPa.  bottom/top: the reference's P at the largest/smallest volume of the
+    n-point grid.  A command that differentiates numerically sees an end pressure that is off by at most the reference's
+    own end-node bound h/2 sup|F''| (a one-sided quotient is P at some point of the end cell, so its range is *smaller*);
+    requests are therefore positioned relative to bottom + bound and top - bound: whether a request is inside the fitted
+    range is then not decided by the discretisation or by rounding."""
+    from mc.ref import static_ref as S
+    g = dense_grid(case, model.vols)
+    nb = S.node_bound(model.eos, g) * S.GPA_PER_AU
+    bottom, top = float(model.P_gpa(g[-1])), float(model.P_gpa(g[0]))
+    return bottom, top, bottom + float(nb[-1]), top - float(nb[0])
+
+
+def grid_of(case, model=None):
     if case.get("request"):
         return float(case["request"][0]), float(case["request"][1])
+    if case.get("anchor"):
+        # anchored request: {"anchor": "top", "c": c, "p": P_MIN}: last pressure = top_safe - c DELTA_P;
+        #                   {"anchor": "bottom", "c": c, "p": last pressure}: first pressure = bottom_safe + c DELTA_P
+        n, c, p = case["n"], float(case["c"]), float(case["p"])
+        bottom, top, bsafe, tsafe = fitted_range(case, model)
+        if case["anchor"] == "top":
+            dp = (tsafe - p) / (n - 1 + c)
+            pmin = p
+        else:
+            dp = (p - bsafe) / (n - 1 + c)
+            pmin = p - (n - 1) * dp
+        if not dp > 0:
+            raise HarnessError(f"anchored request does not fit: {case['anchor']} c={c} p={p} range {bsafe}..{tsafe}")
+        return float(pmin), float(dp)
     pmin, pmax = PRANGES[case["prange"]]
     n = case["n"] if case.get("n") is not None else 201
     return pmin, (pmax - pmin) / (n - 1)
@@ -272,6 +313,7 @@ def run_case(case):
             model = S.StaticModel(ph["vols"], ph["energies"], table=st, system=sarg if st is not None else None, cellmass=case.get("cellmass"))
         except Exception as ex:
             raise HarnessError(f"reference could not read the generated inputs: {ex!r}")
+        args += option_args(case, model)
         res, out = invoke(args, d)
     cmdline = "cij " + " ".join(args)
     if res.exception is not None and not isinstance(res.exception, SystemExit):
@@ -334,10 +376,14 @@ def run_case(case):
             nb = S.node_bound(eos, g) * S.GPA_PER_AU
             c.col("P", "P", model.P_gpa(g), extra=nb + RT_UNIT * pscale, label=f"P = -dF/dV of the fit (n={n})")
     else:
-        pmin, dp = grid_of(case)
+        pmin, dp = grid_of(case, model)
         k = case.get("sample") or 1
         want = pmin + dp * numpy.arange(0, n, k)
-        if not (lo <= want.min() and want.max() <= hi):
+        if case.get("anchor"):
+            bottom, top, bsafe, tsafe = fitted_range(case, model)
+            if not (bsafe <= pmin and pmin + dp * (n - 1) <= tsafe):
+                raise HarnessError(f"anchored request {pmin}..{pmin + dp * (n - 1)} GPa not inside the fitted range on the grid {bsafe:.3f}..{tsafe:.3f}")
+        elif not (lo <= want.min() and want.max() <= hi):
             raise HarnessError(f"requested pressures {want.min()}..{want.max()} GPa not inside the fitted range {lo:.2f}..{hi:.2f}")
         if nrow != len(want):
             viol.append(V("c18:pressure:rows" + (":sampled" if k > 1 else ""), f"`{cmdline}`: {nrow} rows, expected {len(want)} (P_MIN + j*{k}*DELTA_P, j*{k} < {n})"))
@@ -351,9 +397,17 @@ def run_case(case):
         own = numpy.abs(model.P_gpa(va) - want)
         slope = numpy.abs(eos.deriv(Vb, 2))
         rho = slope[:, None] / numpy.abs(eos.deriv(go[idx], 2))
-        cellmin = numpy.abs(numpy.diff(pno[idx], axis=1)).min(axis=1)
-        guard = 1.0 + 4.0 * nbo[idx].max(axis=1) / cellmin
-        b1 = (numpy.abs(W) * rho * nbo[idx]).sum(axis=1) * guard
+        b1 = (numpy.abs(W) * rho * nbo[idx]).sum(axis=1)            # first order in the node bounds
+        # worst case over the box of admissible node pressures (exact value +- bound), same four nodes: covers the
+        # non-linear regime where a bound is a sizeable fraction of a cell (end nodes, n = 11)
+        box = numpy.zeros(len(want))
+        spread = (numpy.abs(W) * (go[idx] - Vb[:, None]) ** 2).sum(axis=1)
+        for Wc, vc in S.lagrange_box(pno[idx], nbo[idx], go[idx], want):
+            ok = numpy.isfinite(vc) & (vc > 0)
+            dev = numpy.where(ok, numpy.abs(model.P_gpa(numpy.where(ok, vc, go[idx][:, 0])) - want), numpy.inf)
+            box = numpy.maximum(box, dev)
+            spread = numpy.maximum(spread, (numpy.abs(Wc) * (go[idx] - Vb[:, None]) ** 2).sum(axis=1))
+        b1 = numpy.maximum(b1, box)
         pv = model.P_gpa(Vb)
         tol = b1 + 2.0 * own + slope * S.GPA_PER_AU * dV + RT_UNIT * (numpy.abs(want) + pscale)
         if not numpy.all(numpy.isfinite(Vb)):
@@ -369,7 +423,7 @@ def run_case(case):
                               f"`{cmdline}` row {i}: V = {tab['tokens']['V'][i]} A^3 where the fit has P = {float(pv[i])!r} GPa, requested {float(want[i])!r} GPa (tolerance {float(tol[i]):.3g}); expected V = {model.volume_at(float(want[i])) * S.ANG3_PER_BOHR3!r}"))
         # F(P) by inverse interpolation: Taylor bound for any weights of sum one on the bracketing nodes
         sup2 = S.sup_abs(lambda v: eos.deriv(v, 2), go[idx].min(axis=1), go[idx].max(axis=1)) * S.EV_PER_RY
-        f_extra = 0.5 * sup2 * (numpy.abs(W) * (go[idx] - Vb[:, None]) ** 2).sum(axis=1) * guard
+        f_extra = 0.5 * sup2 * spread
 
     # ---- F at the reported V
     if mode != "none" and numpy.all(numpy.isfinite(Vb)):
@@ -450,6 +504,28 @@ def request_cases(quick):
     return out
 
 
+ANCHOR_C = (0.35, 0.5, 0.8, 1.5, 5.0)
+ANCHOR_N = (41, 101, 201, 401)
+ANCHOR_P = (-5.0, 0.0, 10.0)
+
+
+def anchored_cases(quick):
+    """requests that run up to (down to) a fraction of one step from the top (bottom) of the fitted range on the n-point
+    grid: top family: P_MIN given, last pressure = top_safe - c DELTA_P; bottom family: last pressure given, first
+    pressure = bottom_safe + c DELTA_P.  All inside the range, so all must be served."""
+    base = dict(mode="pressure", prange="r0", sample=None, cellmass=None, nv=6, tabvols="same", order01="desc", order02="desc")
+    out = []
+    for anchor in ("top", "bottom"):
+        for c in ANCHOR_C:
+            for n in ANCHOR_N:
+                for p in ANCHOR_P:
+                    for table in (("none",) if quick else ("none", "ortho9")):
+                        for data in (("bm3",) if quick else ("bm3", "quad", "noise")):
+                            for vratio in ((None,) if quick else (None, 1.05, 1.5)):
+                                out.append(dict(base, anchor=anchor, c=c, n=n, p=p, table=table, data=data, vratio=vratio))
+    return out
+
+
 def explore(ctx):
     ctx.rule = ("mode A: deviation lattice over mode (3) x -n (11,101,401) x pressure range (2, inside the fitted range; DELTA_P = span/(n-1)) x "
                 "--delta-p-sample (absent, 2x, 5x DELTA_P) x static table (absent, orthotropic 9, orthotropic 9 + -s, cubic 3 + -s cubic, "
@@ -461,9 +537,13 @@ def explore(ctx):
                 "quick: <= 2 deviations from the default; thorough: <= 3 deviations over all 12 dimensions + the full product of the 9 data/option "
                 "dimensions in the default presentation + the full product of the 3 presentation dimensions x mode x n x table (3) x data. "
                 "Plus explicit pressure requests P_MIN in {0,-5,0.1} x DELTA_P in {0.1,0.3,0.7} x n in {30,53,61,101} (inside the fitted range) x table x "
-                "INPUT01 order, and 6 edge invocations (-s without table, sample = 1, defaults); non-trivial = a table of >= 3 rows with >= 3 compared columns")
+                "INPUT01 order; range-edge requests: last pressure = top - bound - c DELTA_P with P_MIN in {-5,0,10}, and first pressure = bottom + bound + c DELTA_P "
+                "with last pressure in {-5,0,10}, c in {0.35,0.5,0.8,1.5,5}, n in {41,101,201,401}, top/bottom = the reference's P at the ends of the n-point "
+                "volume grid, bound = its end-node discretisation bound (all inside the fitted range: all must be served); and 6 edge invocations (-s without table, sample = 1, defaults); non-trivial = a table of >= 3 rows with >= 3 compared columns")
     ctx.assumptions = [
-        "pressure ranges lie inside the pressures spanned by the input volumes (asserted per case against the reference fit)",
+        "pressure ranges lie inside the pressures spanned by the input volumes (asserted per case against the reference fit); range-edge requests lie inside "
+        "the fitted range on the n-point grid shrunk at either end by the reference's end-node bound h/2 sup|F''| (the numerical end pressure of a one-sided "
+        "quotient lies within that bound of the analytic one); requests that leave the fitted range are not asserted",
         "--delta-p-sample is an integer multiple (1, 2, 5) of --delta-p; other ratios are outside the statement",
         "volume-mode grid = n equidistant volumes from Vmin/ratio to Vmax*ratio (the documented meaning of --v-ratio), either order",
         "the fit does not depend on the order in which volumes are listed in either input file; mode none reports the rows in INPUT01's order",
@@ -493,6 +573,10 @@ def explore(ctx):
     reqs = request_cases(ctx.quick)
     allres += ctx.run(MOD, "run_case", reqs, part="pressure-requests", chunksize=2)
     ctx.notes["pressure_requests"] = {"requests": len(REQUESTS), "cases": len(reqs)}
+    anch = anchored_cases(ctx.quick)
+    allres += ctx.run(MOD, "run_case", anch, part="range-edge-requests", chunksize=2)
+    ctx.notes["range_edge_requests"] = {"anchor": 2, "c": list(ANCHOR_C), "n": list(ANCHOR_N), "p": list(ANCHOR_P), "cases": len(anch),
+                                        "margin": "reference's end-node bound h/2 sup|F''| on the n-point grid"}
     edges = edge_cases()
     allres += ctx.run(MOD, "run_case", edges, part="edge-invocations", chunksize=1)
     ctx.notes["edge_invocations"] = len(edges)
